@@ -55,6 +55,10 @@ def gen_config(rng, tier, index=0):
     if kind == "sampler":
         cfg = wl_assemble.gen_config(rng, tier, "db")
         cfg["kind"] = "sampler"
+        cfg["read_style"] = "plain"
+        cfg["long_locus"] = False
+        if cfg["initial"] in ("truth_rows", "near_dup_head", "near_dup_tail"):
+            cfg["initial"] = "random"
         cfg["ploidy"] = rng.choice([1, 2, 3, 4, 6, 8])
         cfg["n_alleles"] = [rng.choice([2, 2, 3]) for _ in range(rng.choice([1, 2, 3, 5, 8, 12]))]
         cfg["n_reads"] = rng.choice([1, 2, 3])
